@@ -613,6 +613,7 @@ fn examine_point(
         ));
         *res.probes.0.entry(format!("crash_before_{}", p.next_kind)).or_insert(0) += 1;
         let second = kind == Some("verify") || (pi % 7 == 0);
+        util::heartbeat();
         let vs = judge_image(h, img_dir, &s_prev, s_next.as_ref(), kind, riders, second, &mut res.probes);
         for v in vs {
             res.violations.push((
